@@ -123,6 +123,21 @@ class C20(Prop):
                             elif extra:
                                 continue
                             out.append(c)
+        # NEIGHBOURS: a silent subscriber joins the source subject (`join`) or the subject of a group (`gjoin k`) somewhere in
+        # the history — the subjects' own bookkeeping (chamber -> live list) must not cost the groups their items or their
+        # terminal, in particular behind `take n` of the stream of groups (the outer side has finished early; seed C20-8)
+        rngN = random.Random(seed + 2020)
+        for i in range(1500 if tier == "quick" else 15000):
+            c = self.rand_case(rngN, wide=(i % 10 == 0))
+            if i % 2 == 0 and not c.field("otake") and not c.field("skip"):
+                c.fields.append(("otake", [str(rngN.randint(1, 2))]))
+            evs = list(c.events)
+            for _ in range(rngN.randint(1, 3)):
+                pos = rngN.randint(0, max(0, len(evs) - 1))
+                evs.insert(pos, ["join"] if rngN.random() < 0.6 else ["gjoin", str(rngN.choice(range(4)))])
+            c.events = evs
+            c.meta = dict(c.meta, kind="neighbour")
+            out.append(c)
         nrand = 6000 if tier == "quick" else 60000
         for _ in range(nrand):
             out.append(self.rand_case(rng))
